@@ -33,7 +33,9 @@ type c12cell struct {
 // the sixth cell: a first load driven by the UPDATER (the first handshake met an unreachable origin; the next refresh
 // cycle loads the entry for the first time) of a list that fails verification
 var c12cells = []c12cell{{"first", "accepted"}, {"first", "rejected"}, {"refresh", "accepted"}, {"refresh", "rejected"}, {"refresh", "swapfault"}, {"first-by-updater", "rejected"}}
-var c12kinds = []string{"hit", "os", "st", "st-torn"}
+// "st-switch": the k-th storage operation issued by the store switch itself (LevelDbStore.Update), with a list of 2500
+// entries: whatever the switch writes, it writes after thousands of operations of streaming
+var c12kinds = []string{"hit", "os", "st", "st-torn", "st-switch"}
 
 func c12dims(tier string) (perHit, perOs, perSt int) {
 	if tier == "thorough" {
@@ -42,11 +44,18 @@ func c12dims(tier string) (perHit, perOs, perSt int) {
 	return 260, 60, 90
 }
 
+func c12switchPoints(tier string) int {
+	if tier == "thorough" {
+		return 120
+	}
+	return 40
+}
+
 func init() {
 	register(&PropDef{ID: "C12", Plan: func(tier string) Plan {
 		h, o, s := c12dims(tier)
-		n := len(c12cells) * (h + o + 2*s)
-		return Plan{Runs: n, Enumerated: n, Level: "fault_enumeration", Rule: "one run = (cell in {first load, refresh} x {accepted, rejected}) x (crash-point kind in {statement boundary k inside the CRL packages, os.* operation k, goleveldb storage operation k, storage operation k with a torn append}) for k = 1..K; runs whose k lies past the end of the operation are counted as 'past-end' and show that the enumeration covered every point of that cell; after the crash a fresh validator is provisioned on the copied work_dir with the origin down and strict on; non-trivial = the crash point was reached"}
+		n := len(c12cells) * (h + o + 2*s + c12switchPoints(tier))
+		return Plan{Runs: n, Enumerated: n, Level: "fault_enumeration", Rule: "one run = (cell in {first load, refresh} x {accepted, rejected}) x (crash-point kind in {statement boundary k inside the CRL packages, os.* operation k, goleveldb storage operation k, storage operation k with a torn append, the k-th storage operation issued by the store switch itself for a list of 2500 entries}) for k = 1..K; runs whose k lies past the end of the operation are counted as 'past-end' and show that the enumeration covered every point of that cell; after the crash a fresh validator is provisioned on the copied work_dir with the origin down and strict on; non-trivial = the crash point was reached"}
 	}, Run: runC12})
 }
 
@@ -65,11 +74,13 @@ func crlScope(site int) bool {
 
 func runC12(h *Harness) {
 	hitN, osN, stN := c12dims(h.Tier)
-	per := hitN + osN + 2*stN
+	per := hitN + osN + 2*stN + c12switchPoints(h.Tier)
 	cell := c12cells[h.Idx/per]
 	off := h.Idx % per
 	kind, k := "", 0
 	switch {
+	case off >= hitN+osN+2*stN:
+		kind, k = "st-switch", off-hitN-osN-2*stN+1
 	case off < hitN:
 		kind, k = "hit", off+1
 	case off < hitN+osN:
@@ -83,6 +94,9 @@ func runC12(h *Harness) {
 	extra := 3
 	if h.Tier == "thorough" {
 		extra = Pick(tp, 3, 20, 60)
+	}
+	if kind == "st-switch" {
+		extra = 2500
 	}
 	smallWB := h.Tier == "thorough" && tp.Chance(1, 3)
 	h.Disk.SmallWB = smallWB
@@ -158,6 +172,11 @@ func runC12(h *Harness) {
 		h.S.crashAtHit = int64(k)
 	case "os":
 		h.Disk.OsCrashAt = baseOs + k
+	case "st-switch":
+		h.Disk.StSnapScope, h.Disk.StSnapScopeAt, h.Disk.StSnapDir, h.Disk.StSnapTo = "LevelDbStore).Update", int64(k), n.WorkDir, img
+		if k%2 == 0 {
+			h.Disk.StSnapTorn = 1 + tp.Int(40)
+		}
 	case "st", "st-torn":
 		h.Disk.StSnapAt, h.Disk.StSnapDir, h.Disk.StSnapTo = baseSt+int64(k), n.WorkDir, img
 		if kind == "st-torn" {
@@ -194,7 +213,7 @@ func runC12(h *Harness) {
 	if h.Disk.StSnapDone {
 		image = img
 	}
-	h.Disk.StSnapAt = 0
+	h.Disk.StSnapAt, h.Disk.StSnapScope = 0, ""
 	h.S.crashScope = nil
 	// restart on the image, origin down
 	h.Settle(6 * time.Minute)
